@@ -162,7 +162,7 @@ Section Inv.
   (* `del n` followed by a definition of n: the definition is registered, whatever n was before *)
   Theorem delete_then_define_registers_the_definition : forall sc sc' n u,
     NoDup (names sc) ->
-    regs [TDelete [n] u; TDef n] sc = ROk sc' -> scope_get sc' n = Some (mkSym n KFunc).
+    regs [TDelete u [n]; TDef n] sc = ROk sc' -> scope_get sc' n = Some (mkSym n KFunc).
   Proof.
     intros sc sc' n u Hn H. cbn [RootCtx.regs RootCtx.reg fold_left] in H. injection H as <-.
     rewrite root_add_get, (scope_remove_get _ _ Hn). cbn [s_name]. rewrite String.eqb_refl. reflexivity.
